@@ -114,6 +114,36 @@ where
                 ctx.sample(json!({"op": op.show(), "series": json_word(x), "elem": tname, "model": show_exps(&map_model(&op, x)), "observed": show_cells(&d.cells)}));
             }
         }
+        // scaling relation (power-of-two factors commute with every floating-point operation involved):
+        // pct_change(s*x) == pct_change(x) and vdiff(s*x) == s*vdiff(x). Exposes magnitude-dependent
+        // thresholds (a "zero base" test with a tolerance) that the unit-scale alphabet cannot.
+        if tname == "f64" && matches!(op, MapOp::VPct(_) | MapOp::VDiff(_, None)) {
+            if let Outcome::Ok(d) = &got {
+                for e in [-70i32, 70, -300] {
+                    let sc = 2f64.powi(e);
+                    let xs: Vec<X> = x.iter().map(|v| v.map(|a| a * sc)).collect();
+                    if let Some(Outcome::Ok(ds)) = run(&op, &enc_vec::<T>(&xs)) {
+                        ctx.evals += 1;
+                        let k = if matches!(op, MapOp::VPct(_)) { 1.0 } else { sc };
+                        let same = ds.cells.len() == d.cells.len() && d.cells.iter().zip(&ds.cells).all(|(a, b)| match (a.num(), b.num()) {
+                            (None, None) => true,
+                            (Some(p), Some(q)) => p * k == q,
+                            _ => false,
+                        });
+                        if !same {
+                            ctx.violation(Violation {
+                                entry: format!("scaling:{}", op.name()),
+                                finding: None,
+                                size: len * 100,
+                                case: json!({"family": fam, "word": word, "series": json_word(x), "elem": tname, "op": op.show(), "scale": format!("2^{e}")}),
+                                expected: format!("{} * {}", k, show_cells(&d.cells)),
+                                got: show_cells(&ds.cells),
+                            });
+                        }
+                    }
+                }
+            }
+        }
         // clip with lower <= upper: results inside the bounds, and clipping again changes nothing
         if let (MapOp::VClip(lo, hi), Outcome::Ok(d)) = (&op, &got) {
             let ordered = !matches!((lo, hi), (Some(l), Some(h)) if l > h);
